@@ -93,6 +93,58 @@ theorem reasm_prefix_from (s : List α) (segs : List (Seg α)) (base a : Nat) (h
     reasmFrom segs base = ((s.drop base).take (a - base), beyond segs a) :=
   reasmFrom_slices s segs base a hs hba ha hpre hhole
 
+/-- `reasm_truncated_prefix` (snap length): every captured segment `p.1` is a slice of the sent stream of which
+    only the first `p.2` payload bytes are in the file.  Let `a` be the first byte that is in no captured part
+    (everything before it is).  Then the reference over the truncated segments returns exactly `s[:a]` — the
+    captured part of a truncated segment appears, nothing beyond it is invented — and reports a loss iff some
+    captured byte lies beyond `a`; in particular the missing tail of a truncated segment is a loss as soon as
+    anything after it was captured. -/
+theorem reasm_truncated_prefix (s : List α) (caps : List (Seg α × Nat)) (a : Nat) (ha : a ≤ s.length)
+    (hs : ∀ p ∈ caps, IsSlice s p.1)
+    (hpre : ∀ i, i < a → ∃ p ∈ caps, p.1.off ≤ i ∧ i < p.1.off + min p.2 p.1.len)
+    (hhole : ∀ p ∈ caps, ¬ (p.1.off ≤ a ∧ a < p.1.off + min p.2 p.1.len)) :
+    (reasmFrom (caps.map fun p => truncSeg p.2 p.1) 0).1 = s.take a ∧
+    ((reasmFrom (caps.map fun p => truncSeg p.2 p.1) 0).2 = true ↔
+      ∃ p ∈ caps, min p.2 p.1.len ≠ 0 ∧ a < p.1.off + min p.2 p.1.len) := by
+  have hsl : Slices s (caps.map fun p => truncSeg p.2 p.1) := by
+    intro g hg
+    obtain ⟨p, hp, rfl⟩ := List.mem_map.mp hg
+    exact truncSeg_isSlice s p.1 p.2 (hs p hp)
+  have hcov : ∀ i, 0 ≤ i → i < a → covered (caps.map fun p => truncSeg p.2 p.1) i = true := by
+    intro i _ hi
+    obtain ⟨p, hp, hc⟩ := hpre i hi
+    rw [covered, List.any_eq_true]
+    exact ⟨truncSeg p.2 p.1, List.mem_map.mpr ⟨p, hp, rfl⟩, (coversB_truncSeg p.1 p.2 i).mpr hc⟩
+  have hend : covered (caps.map fun p => truncSeg p.2 p.1) a = false := by
+    rw [covered_false_iff]
+    intro g hg hc
+    obtain ⟨p, hp, rfl⟩ := List.mem_map.mp hg
+    exact hhole p hp (by simpa [truncSeg] using hc)
+  rw [reasmFrom_slices s _ 0 a hsl (Nat.zero_le _) ha hcov hend]
+  refine ⟨by simp, ?_⟩
+  simp only
+  rw [beyond_iff]
+  constructor
+  · rintro ⟨g, hg, hlt, hne⟩
+    obtain ⟨p, hp, rfl⟩ := List.mem_map.mp hg
+    exact ⟨p, hp, by simpa [truncSeg] using hne, by simpa [truncSeg] using hlt⟩
+  · rintro ⟨p, hp, hne, hlt⟩
+    exact ⟨truncSeg p.2 p.1, List.mem_map.mpr ⟨p, hp, rfl⟩, by simpa [truncSeg] using hlt, by simpa [truncSeg] using hne⟩
+
+/-- what is visible of a segment cut by the snap length: nothing unless IP and TCP header are complete, then the
+    captured payload bytes and never more than were sent; a cut inside the TCP header (at least one of its bytes captured) is the `tcpHeaderCut` case -/
+theorem visible_payload_spec (ipHdr k n : Nat) :
+    (k < ipHdr + 20 → visiblePayload ipHdr k n = none) ∧
+    (ipHdr + 20 ≤ k → ∃ m, visiblePayload ipHdr k n = some m ∧ m ≤ n ∧ m ≤ k - ipHdr - 20 ∧
+      (ipHdr + 20 + n ≤ k → m = n)) ∧
+    (tcpHeaderCut ipHdr k = true ↔ ipHdr < k ∧ k < ipHdr + 20) := by
+  refine ⟨?_, ?_, ?_⟩
+  · intro h; simp [visiblePayload, h]
+  · intro h
+    refine ⟨min n (k - ipHdr - 20), by simp [visiblePayload]; omega, Nat.min_le_left _ _, Nat.min_le_right _ _, ?_⟩
+    intro h2; omega
+  · simp [tcpHeaderCut]
+
 /-- the reference does not depend on the order in which the segments were captured (stream part: for
     segments that are slices of one stream; position of the first hole and loss flag: always) -/
 theorem reasm_perm (s : List α) (l₁ l₂ : List (Seg α)) (hs : Slices s l₁) (hp : l₁.Perm l₂) (base : Nat)
@@ -388,6 +440,15 @@ theorem seq_wrap_witness :
     seqDifference 0xFFFFFFFF 0 = 0 ∧ seqDifference 77 78 = 1 := by
   decide
 
+/-- known finding `tcp-header-cut`: 30 bytes of an IPv4 packet captured = 10 bytes of the TCP header: nothing of the
+    segment is visible, yet fq's `packet` hands a segment without transport endpoints to the assembler and `New`
+    makes a connection with ports 0; a cut exactly after the IP header or in the payload does not -/
+theorem tcp_header_cut_witness :
+    tcpHeaderCut 20 30 = true ∧ visiblePayload 20 30 8 = none ∧
+    (newConn (α := Nat) [10, 0, 0, 1] [10, 1, 0, 2] [] []).client.port = 0 ∧
+    (newConn (α := Nat) [10, 0, 0, 1] [10, 1, 0, 2] [] []).server.port = 0 ∧
+    tcpHeaderCut 20 20 = false ∧ tcpHeaderCut 20 43 = false ∧ tcpHeaderCut 40 49 = true := by decide
+
 /-- fixed finding `defrag-length` (regression): the 28 byte payload cut into [0,8) and [8,28), arriving in
     reverse order.  The reference rebuilds it; the OLD test `newIPv4.Length != l` compared 28 with the total
     length 20+8 of the fragment that completed it and rejected (in order, completed by the 20 byte fragment, it
@@ -456,6 +517,13 @@ example :
     segmentation [1, 2] 0 s = [Seg.mk' 0 [10, 11], Seg.mk' 2 [12, 13, 14], Seg.mk' 5 [15, 16]] ∧
     reasmFrom [Seg.mk' 5 [15, 16], Seg.mk' 0 [10, 11], Seg.mk' 2 [12, 13, 14], Seg.mk' 0 [10, 11]] 0 = (s, false) := by
   decide
+
+/-- `reasm_truncated_prefix`: 8 byte segment of which 3 bytes were captured, then the next segment whole: the 3
+    bytes appear, the loss is signalled; without the later segment it is not -/
+example :
+    reasmFrom [truncSeg 3 (Seg.mk' 0 [10, 11, 12, 13, 14, 15, 16, 17]), truncSeg 8 (Seg.mk' 8 [18, 19])] 0 = ([10, 11, 12], true) ∧
+    reasmFrom [truncSeg 3 (Seg.mk' 0 [10, 11, 12, 13, 14, 15, 16, 17])] 0 = ([10, 11, 12], false) ∧
+    visiblePayload 20 43 8 = some 3 ∧ visiblePayload 20 30 8 = none ∧ tcpHeaderCut 20 30 = true := by decide
 
 /-- `reasm_prefix`: hole [3,5) with data behind it, and a hole at the end with nothing behind it -/
 example :
